@@ -192,6 +192,42 @@ func (m *Machine) switchFrom(g *gor) {
 	g.runnable, g.cond = true, nil
 }
 
+// syncPoint is called before a lock acquisition. With Config.PreemptAtSync the scheduler
+// may hand control to any other runnable goroutine here (a decision, every alternative is
+// explored), up to Config.MaxPreemptions switches per path. For data-race-free code,
+// interleavings at lock acquisitions are the only ones that matter.
+func (m *Machine) syncPoint() {
+	if !m.cfg.PreemptAtSync || m.ps == nil || m.preemptions >= m.cfg.MaxPreemptions || m.cur == nil {
+		return
+	}
+	var cands []*gor
+	for _, o := range m.gors {
+		if o != m.cur && !o.done && (o.runnable || (o.cond != nil && o.cond())) {
+			cands = append(cands, o)
+		}
+	}
+	if len(cands) == 0 {
+		return
+	}
+	k := m.decideFree("sched", len(cands)+1)
+	if k == 0 {
+		return
+	}
+	m.preemptions++
+	g := m.cur
+	target := cands[k-1]
+	g.runnable = true
+	g.what = "preempted"
+	m.cur = target
+	target.runnable, target.cond = true, nil
+	target.wake <- struct{}{}
+	<-g.wake
+	if m.aborting {
+		panic(pathAbort{"quiet", ""})
+	}
+	g.runnable, g.cond = true, nil
+}
+
 // goroutineCounts runs everything to quiescence and reports (live, blocked) excluding the caller.
 func (m *Machine) quiesce() (live int) {
 	for {
